@@ -40,6 +40,7 @@ type target struct {
 	cases            bool // the function is an event loop `for { select { case ...: body } }`: one function per case
 	inner            bool // with iter: the loop is the endless loop NESTED in the function's outer endless loop
 	iter             bool // translate ONE ITERATION of the function's (single, conditional) top-level loop, locals as parameters
+	endless          bool // with iter: the loop is the function's top-level ENDLESS loop; `continue` = `return $continue, locals`
 	ranges           bool // `for _, v := range X { body }` inside: the body becomes its own function Key$rangeN (of the function's
 	// parameters, v and the variables of the function it mentions), the loop itself the logged call $rangeN(X)
 }
@@ -94,6 +95,10 @@ var targets = []target{
 	{file: "block/retriever.go", recv: "Manager", name: "processNextDAHeaderAndData", pre: true},
 	{file: "block/retriever.go", recv: "Manager", name: "processNextDAHeaderAndData", iter: true, ranges: true},
 	{file: "block/retriever.go", recv: "Manager", name: "fetchBlobs"},
+	{file: "block/store.go", recv: "Manager", name: "HeaderStoreRetrieveLoop", pre: true},
+	{file: "block/store.go", recv: "Manager", name: "HeaderStoreRetrieveLoop", iter: true, endless: true, ranges: true},
+	{file: "block/store.go", recv: "Manager", name: "DataStoreRetrieveLoop", pre: true},
+	{file: "block/store.go", recv: "Manager", name: "DataStoreRetrieveLoop", iter: true, endless: true, ranges: true},
 	{file: "block/aggregation.go", recv: "Manager", name: "lazyAggregationLoop", cases: true},
 	{file: "block/aggregation.go", recv: "Manager", name: "normalAggregationLoop", cases: true},
 	{file: "block/aggregation.go", recv: "Manager", name: "produceBlock"},
@@ -191,7 +196,9 @@ func (t *tr) emitRanges(b *strings.Builder, tg target, key, ident, recv string, 
 			case *ast.Ident:
 				used[x.Name] = true
 			case *ast.ReturnStmt:
-				ok = false
+				if len(x.Results) != 0 || !t.noResults {
+					ok = false
+				}
 			case *ast.BranchStmt:
 				if x.Tok != token.CONTINUE || x.Label != nil {
 					ok = false
@@ -215,12 +222,18 @@ func (t *tr) emitRanges(b *strings.Builder, tg target, key, ident, recv string, 
 		var out []string
 		if ok {
 			t.inRange = true
-			saveE, saveB := t.inEndless, t.breakLocals
-			t.inEndless, t.breakLocals = false, ""
+			t.rangeRet = rangeReturns(rs)
+			saveE, saveB, saveC := t.inEndless, t.breakLocals, t.continueLocals
+			t.inEndless, t.breakLocals, t.continueLocals = false, "", ""
 			out = append(out, t.stmts(rs.Body.List)...)
-			t.inEndless, t.breakLocals = saveE, saveB
+			t.inEndless, t.breakLocals, t.continueLocals = saveE, saveB, saveC
 			t.inRange = false
-			out = append(out, "(SReturn [])")
+			if t.rangeRet {
+				out = append(out, "(SReturn [(EBool false)])")
+			} else {
+				out = append(out, "(SReturn [])")
+			}
+			t.rangeRet = false
 		} else {
 			out = append(out, "(SUnknown "+q("return / break / loop inside a range body")+")")
 		}
@@ -229,6 +242,21 @@ func (t *tr) emitRanges(b *strings.Builder, tg target, key, ident, recv string, 
 		table = append(table, "("+q(rkey)+", "+rid+")")
 	}
 	return table
+}
+
+// rangeReturns: the body of the range loop contains a `return`
+func rangeReturns(rs *ast.RangeStmt) bool {
+	found := false
+	ast.Inspect(rs.Body, func(n ast.Node) bool {
+		switch n.(type) {
+		case *ast.ReturnStmt:
+			found = true
+		case *ast.FuncLit:
+			return false
+		}
+		return true
+	})
+	return found
 }
 
 func list(xs []string) string { return "[" + strings.Join(xs, "; ") + "]" }
@@ -242,6 +270,9 @@ type tr struct {
 	goTmps  map[string][]string // errgroup variable -> temporaries holding the results of its g.Go(func) bodies
 	ranges  bool                // range loops become calls; their bodies are collected in rangeBodies
 	inRange bool                // inside a range body translated as a function: `continue` = return
+	rangeRet bool               // ... whose `return` leaves the enclosing function: the body function answers true for it, false otherwise
+	continueLocals string       // inside a top-level endless loop translated as one iteration with locals: what `continue` becomes
+	noResults bool              // the function being translated has no results
 	rangeBodies []*ast.RangeStmt
 }
 
@@ -846,7 +877,7 @@ func (t *tr) stmt(s ast.Stmt) string {
 			// select { case <-ctx.Done(): body; case <-a: case <-b: ... }: wait for any of the channels unless cancelled
 			var doneC *ast.CommClause
 			var chans []string
-			okAll := len(x.Body.List) >= 3
+			okAll := len(x.Body.List) >= 2
 			for _, c := range x.Body.List {
 				cc := c.(*ast.CommClause)
 				es, isExpr := cc.Comm.(*ast.ExprStmt)
@@ -862,12 +893,15 @@ func (t *tr) stmt(s ast.Stmt) string {
 				if strings.HasSuffix(text(u.X), ".Done()") {
 					doneC = cc
 				} else if len(cc.Body) == 0 {
+					if _, isCall := u.X.(*ast.CallExpr); isCall || strings.HasSuffix(text(u.X), ".C") {
+						okAll = len(x.Body.List) >= 3 // a lone timer / ticker channel has its own idiom below
+					}
 					chans = append(chans, t.expr(u.X))
 				} else {
 					okAll = false
 				}
 			}
-			if okAll && doneC != nil && len(chans) >= 2 {
+			if okAll && doneC != nil && len(chans) >= 1 {
 				return "(SIf [] (EBool true) [(SIf [] (ECall " + q("$ctxdone") + " []) " + t.block(&ast.BlockStmt{List: doneC.Body}) + " []); (SAssign [" + q("_") + "] (ECall " + q("$wait_any") + " " + list(chans) + "))] [])"
 			}
 			// select { case ch <- v: default: }: a send that is dropped when it would block
@@ -953,7 +987,13 @@ func (t *tr) stmt(s ast.Stmt) string {
 			return t.breakLocals
 		}
 		if x.Tok == token.CONTINUE && x.Label == nil && t.inRange {
+			if t.rangeRet {
+				return "(SReturn [(EBool false)])"
+			}
 			return "(SReturn [])"
+		}
+		if x.Tok == token.CONTINUE && x.Label == nil && t.continueLocals != "" {
+			return t.continueLocals
 		}
 		if x.Tok == token.CONTINUE && x.Label == nil && t.inEndless {
 			return "(SReturn [(EVar " + q("$continue") + ")])"
@@ -963,13 +1003,22 @@ func (t *tr) stmt(s ast.Stmt) string {
 		if t.ranges && !t.inRange && x.Value != nil && (x.Key == nil || text(x.Key) == "_") {
 			if _, ok := x.Value.(*ast.Ident); ok {
 				t.rangeBodies = append(t.rangeBodies, x)
-				return fmt.Sprintf("(SExpr (ECall %s [%s]))", q(fmt.Sprintf("$range%d", len(t.rangeBodies))), t.expr(x.X))
+				name := fmt.Sprintf("$range%d", len(t.rangeBodies))
+				if rangeReturns(x) && t.noResults {
+					// a `return` in the body leaves the function: the walk answers whether that happened
+					tmp := fmt.Sprintf("$rg%d", len(t.rangeBodies))
+					return fmt.Sprintf("(SIf [(SAssign [%s] (ECall %s [%s]))] (EVar %s) [(SReturn [])] [])", q(tmp), q(name), t.expr(x.X), q(tmp))
+				}
+				return fmt.Sprintf("(SExpr (ECall %s [%s]))", q(name), t.expr(x.X))
 			}
 		}
 		return "(SUnknown " + q("loop") + ")"
 	case *ast.ForStmt:
 		return "(SUnknown " + q("loop") + ")"
 	case *ast.ReturnStmt:
+		if t.inRange && t.rangeRet && len(x.Results) == 0 {
+			return "(SReturn [(EBool true)])"
+		}
 		// `return x.M(...)` in a function with ONE result: the call is made first (it may be a call with an effect,
 		// which expressions cannot have in Model/GoLite.v), then its value is returned
 		if len(x.Results) == 1 && t.nresults >= 1 {
@@ -1100,6 +1149,7 @@ func main() {
 			table = append(table, "("+q(key)+", "+ident+")")
 			continue
 		}
+		t.noResults = fd.Type.Results == nil || len(fd.Type.Results.List) == 0
 		recv := "None"
 		if fd.Recv != nil && len(fd.Recv.List) == 1 && len(fd.Recv.List[0].Names) == 1 {
 			recv = "(Some " + q(fd.Recv.List[0].Names[0].Name) + ")"
@@ -1276,7 +1326,7 @@ func main() {
 				}
 			}
 			for _, st := range scope {
-				if fs, ok := st.(*ast.ForStmt); ok && fs.Init == nil && fs.Post == nil && (fs.Cond != nil || tg.inner) {
+				if fs, ok := st.(*ast.ForStmt); ok && fs.Init == nil && fs.Post == nil && (fs.Cond != nil || tg.inner || tg.endless) {
 					loop = fs
 					break
 				}
@@ -1327,6 +1377,8 @@ func main() {
 				case *ast.BranchStmt:
 					if x.Tok == token.BREAK && x.Label == nil && tg.inner {
 						// leaves the inner loop: `return $break, locals` (emitted by stmt() through t.breakLocals)
+					} else if x.Tok == token.CONTINUE && x.Label == nil && tg.endless {
+						// next iteration: `return $continue, locals` (emitted by stmt() through t.continueLocals)
 					} else if x.Tok != token.FALLTHROUGH {
 						plain = false
 					}
@@ -1337,7 +1389,11 @@ func main() {
 					if tg.inner {
 						plain = false
 					}
-				case *ast.ForStmt, *ast.SwitchStmt, *ast.SelectStmt:
+				case *ast.ForStmt:
+					if tg.inner || tg.endless {
+						plain = false // a `break` / `continue` in there would mean something else
+					}
+				case *ast.SwitchStmt, *ast.SelectStmt:
 					if tg.inner {
 						plain = false // a `break` in there would mean something else
 					}
@@ -1359,6 +1415,11 @@ func main() {
 			}
 			t.breakLocals = "(SReturn ((EVar " + q("$break") + ") :: " + list(lv) + "))"
 			defer func() { t.breakLocals = "" }()
+			if tg.endless {
+				t.breakLocals = ""
+				t.continueLocals = "(SReturn ((EVar " + q("$continue") + ") :: " + list(lv) + "))"
+				defer func() { t.continueLocals = "" }()
+			}
 			t.ranges = tg.ranges
 			if plain {
 				out = append(out, t.stmts(loop.Body.List)...)
@@ -1378,6 +1439,7 @@ func main() {
 				tg.file, key, strings.Join(locals, ", "), iterIdent, recv, list(ps), list(out))
 			table = append(table, "("+q(iterKey)+", "+iterIdent+")")
 			t.breakLocals = ""
+			t.continueLocals = ""
 			table = append(table, t.emitRanges(&b, tg, key, ident, recv, params, fd)...)
 			continue
 		}
